@@ -75,9 +75,8 @@ func (e *engine) getCompiledModule(module *wasm.Module, listeners []experimental
 				cm.listenerAfterTrampolines[i] = after
 			}
 		}
-		if err = e.addCompiledModuleToMemory(module, cm); err != nil {
-			return nil, false, err
-		}
+		// The entry preambles must exist before the module becomes visible to concurrent
+		// CompileModule / InstantiateModule calls through the in-memory map.
 		ssaBuilder := ssa.NewBuilder()
 		machine := newMachine()
 		be := backend.NewCompiler(context.Background(), machine, ssaBuilder)
@@ -85,6 +84,10 @@ func (e *engine) getCompiledModule(module *wasm.Module, listeners []experimental
 
 		// Set the finalizer.
 		e.setFinalizer(cm.executables, executablesFinalizer)
+
+		if err = e.addCompiledModuleToMemory(module, cm); err != nil {
+			return nil, false, err
+		}
 	}
 	return
 }
